@@ -82,26 +82,28 @@ def selections(cond):
 
 
 def work(job):
-    wi, cond, sel = job
+    wi, cond, sel, share = job
     domains = G.worlds()[wi]
-    env = G.Env(domains)
+    env = G.Env(domains, share_attrs=share)
     st, got = guarded(lambda: G.run_query(env, sel, cond))
     want = G.oracle_rows(sel, cond, domains)
-    return wi, cond, sel, st, (repr(got) if st == "exc" else got), want
+    return wi, cond, sel, share, st, (repr(got) if st == "exc" else got), want
 
 
 jobs = []
 for wi in range(4):
     for cond in itertools.chain([None], conditions()):
         for sel in selections(cond):
-            jobs.append((wi, cond, sel))
+            jobs.append((wi, cond, sel, False))
+            if cond is not None and cond[0] in ("and", "or", "not"):
+                jobs.append((wi, cond, sel, True))
 seen = set()
 with multiprocessing.get_context("fork").Pool(16) as pool:
-    for wi, cond, sel, st, got, want in pool.imap_unordered(work, jobs, chunksize=32):
-        sig_shape = G.shape_signature(cond) if cond else "no-condition"
+    for wi, cond, sel, share, st, got, want in pool.imap_unordered(work, jobs, chunksize=32):
+        sig_shape = (G.shape_signature(cond) if cond else "no-condition") + ("#shared-attribute-nodes" if share else "")
         selk = "+".join(s[0] for s in sel)
-        rep.case((wi, repr(cond), sel), nontrivial=bool(want), sample={"world": wi, "condition": repr(cond), "selected": sel})
-        inp = {"world": wi, "condition": cond, "selected": sel}
+        rep.case((wi, repr(cond), sel, share), nontrivial=bool(want), sample={"world": wi, "condition": repr(cond), "selected": sel})
+        inp = {"world": wi, "condition": cond, "selected": sel, "shared_attribute_nodes": share}
         if st == "exc":
             rep.fail(f"raised::{sig_shape}::{selk}", f"world {wi} cond {cond!r} selecting {sel}: {got}", inp)
             continue
